@@ -113,6 +113,56 @@ func checkStream(stream []byte) (signature.SignatureDatabase, []esl.List, error)
 	if !bytes.Equal(mb.Bytes(), stream) {
 		return nil, nil, fmt.Errorf("Marshal() of the decoded database does not reproduce the input: %d bytes in, %d bytes out", len(stream), mb.Len())
 	}
+	// every encoding entry point writes the same bytes: the database writer, and per list and per entry the
+	// writer functions and the Bytes methods, each compared with the reference encoding of that element
+	var wb bytes.Buffer
+	signature.WriteSignatureDatabase(&wb, db)
+	if !bytes.Equal(wb.Bytes(), stream) {
+		return nil, nil, fmt.Errorf("WriteSignatureDatabase of the decoded database does not reproduce the input: %d bytes in, %d bytes out", len(stream), wb.Len())
+	}
+	if len(db) != len(want) {
+		return nil, nil, fmt.Errorf("decoded database has %d lists, the stream %d", len(db), len(want))
+	}
+	for i, l := range db {
+		refList := esl.Encode(want[i : i+1])
+		var lb bytes.Buffer
+		signature.WriteSignatureList(&lb, *l)
+		if !bytes.Equal(lb.Bytes(), refList) {
+			return nil, nil, fmt.Errorf("WriteSignatureList of list %d differs from the specification's encoding of that list (%d vs %d bytes)", i, lb.Len(), len(refList))
+		}
+		if !bytes.Equal(l.Bytes(), refList) {
+			return nil, nil, fmt.Errorf("SignatureList.Bytes of list %d differs from the specification's encoding of that list", i)
+		}
+		// a list on its own is a one-list stream: it decodes through the list reader to itself
+		rl, err := signature.ReadSignatureList(bytes.NewReader(refList))
+		if err != nil {
+			return nil, nil, fmt.Errorf("ReadSignatureList rejects list %d of a well-formed stream: %v", i, err)
+		}
+		if !bytes.Equal(rl.Bytes(), refList) {
+			return nil, nil, fmt.Errorf("ReadSignatureList + Bytes does not reproduce list %d", i)
+		}
+		if len(l.Signatures) != len(want[i].Entries) {
+			return nil, nil, fmt.Errorf("list %d has %d entries, the stream defines %d", i, len(l.Signatures), len(want[i].Entries))
+		}
+		for j := range l.Signatures {
+			refEntry := append(append([]byte{}, want[i].Entries[j].Owner.Wire()...), want[i].Entries[j].Data...)
+			var eb bytes.Buffer
+			signature.WriteSignatureData(&eb, l.Signatures[j])
+			if !bytes.Equal(eb.Bytes(), refEntry) {
+				return nil, nil, fmt.Errorf("WriteSignatureData of entry %d of list %d differs from owner GUID (wire layout) followed by the data", j, i)
+			}
+			if !bytes.Equal(l.Signatures[j].Bytes(), refEntry) {
+				return nil, nil, fmt.Errorf("SignatureData.Bytes of entry %d of list %d differs from owner GUID (wire layout) followed by the data", j, i)
+			}
+			re, err := signature.ReadSignatureData(bytes.NewReader(refEntry), uint32(len(refEntry)))
+			if err != nil {
+				return nil, nil, fmt.Errorf("ReadSignatureData rejects entry %d of list %d: %v", j, i, err)
+			}
+			if !bytes.Equal(re.Bytes(), refEntry) {
+				return nil, nil, fmt.Errorf("ReadSignatureData + Bytes does not reproduce entry %d of list %d", j, i)
+			}
+		}
+	}
 	// the same through a reader that offers nothing but Read, in small chunks (a file, a pipe)
 	for _, chunk := range []int{0, 7} {
 		pr := &hx.PlainReader{R: bytes.NewReader(stream), Chunk: chunk}
